@@ -52,6 +52,9 @@ type Contract struct {
 	Trusted  string
 	DeadReturns map[int]string // returns that are unreachable under the contract (precondition or earlier checks), with the reason
 	Hides    []string // heap keys whose effects by this function are not reported to callers (assumption, with reason)
+	SpawnOnly     []string // callee names that this function may only start as goroutines (a direct call would block it)
+	SpawnOnlyTags []string
+	SpawnOnlyWhy  string
 	HidesWhy string
 	Props    []string
 	Ghosts   []string
@@ -341,6 +344,19 @@ func parseClause(c *Contract, body, file string, ln int) error {
 			why = strings.Trim(strings.TrimSpace(rest[i:]), "\"")
 		}
 		c.DeadReturns[n] = why
+	case "spawnonly":
+		// spawnonly[tags] <callee>, <callee> "reason": this function must not wait for these callees - it may start them with
+		// `go` only. A direct (or deferred) call is a failed obligation; no `go` of the callee at all is a binding error.
+		if i := strings.Index(rest, "\""); i >= 0 {
+			c.SpawnOnlyWhy = strings.Trim(strings.TrimSpace(rest[i:]), "\"")
+			rest = rest[:i]
+		}
+		for _, m := range splitTop(rest, ",") {
+			if m = strings.TrimSpace(m); m != "" {
+				c.SpawnOnly = append(c.SpawnOnly, m)
+			}
+		}
+		c.SpawnOnlyTags = tags
 	case "hides":
 		// hides <key>, <key> "reason": effects on these ghost keys are scoped to the callee (nested operations counted
 		// separately); callers see them unchanged. An assumption, reported as such.
